@@ -656,10 +656,11 @@ type c06Causes struct {
 	// sequential: the current segment is driven by one client
 	sequential     bool
 	pendingAtStart bool
+	race           *causes // blobs whose source put raced with the index receive
 }
 
 func newC06Causes(w *world) *c06Causes {
-	return &c06Causes{w: w, dupDel: map[string]bool{}, segSeen: map[string]bool{}, affected: map[string]bool{}, eqDatePN: map[string]bool{}, delivered: map[int]bool{}, oddTarget: map[string]bool{}}
+	return &c06Causes{w: w, dupDel: map[string]bool{}, segSeen: map[string]bool{}, affected: map[string]bool{}, eqDatePN: map[string]bool{}, delivered: map[int]bool{}, oddTarget: map[string]bool{}, race: newCauses(w)}
 }
 
 func (c *c06Causes) noteDelivery(op Op, corpusOn bool) {
@@ -670,6 +671,9 @@ func (c *c06Causes) noteDelivery(op Op, corpusOn bool) {
 	ref := c.w.b[op.I].RefS
 	c.segNow = append(c.segNow, ref)
 	c.delivered[op.I] = true
+	if op.Race {
+		c.race.raced[ref] = true
+	}
 	if c.sequential {
 		// once a blob has to wait for a dependency, its later re-indexing is
 		// asynchronous: the rest of the segment is not sequential any more
@@ -713,6 +717,11 @@ func (c *c06Causes) noteDelivery(op Op, corpusOn bool) {
 		}
 		ds := newDepState(c.w, seen)
 		if st := ds.refState(c.w.b[it.T].RefS); st == 3 {
+			c.dupDel[ref] = true
+		}
+		// the target may also be stuck un-indexed because it, or a blob it
+		// fetches, reached the index before the blob source (C05 finding)
+		if c.race.raced[c.w.b[it.T].RefS] || c.race.fetchDepRaced(it.T) {
 			c.dupDel[ref] = true
 		}
 	}
